@@ -88,6 +88,9 @@ type ArchPair struct {
 	P      Triple3 `json:"p"`
 	Parsed bool    `json:"parsed"` // operands built by ParseArch of the 3-part (or shortest) name instead of struct literals
 	Short  bool    `json:"short"`  // use the shortest Debian spelling (amd64, linux-any, any) when parsing
+	// Via: 0 ParseArch; 1 UnmarshalControl into a zero Arch; 2 UnmarshalControl into an Arch variable
+	// that read the other operand's name before
+	Via int `json:"via,omitempty"`
 }
 
 func shortestName(t Triple3) string {
@@ -104,13 +107,25 @@ func shortestName(t Triple3) string {
 	return t.name3()
 }
 
-func buildArch(t Triple3, parsed, short bool) (dependency.Arch, error) {
+func buildArch(t Triple3, parsed, short bool, via int, other Triple3) (dependency.Arch, error) {
 	if !parsed {
 		return t.arch(), nil
 	}
 	n := t.name3()
 	if short {
 		n = shortestName(t)
+	}
+	if via > 0 {
+		var a dependency.Arch
+		if via == 2 {
+			if err := a.UnmarshalControl(other.name3()); err != nil {
+				return a, errf("Arch.UnmarshalControl(%q) failed: %v", other.name3(), err)
+			}
+		}
+		if err := a.UnmarshalControl(n); err != nil {
+			return a, errf("Arch.UnmarshalControl(%q) failed: %v", n, err)
+		}
+		return a, nil
 	}
 	a, err := dependency.ParseArch(n)
 	if err != nil {
@@ -121,18 +136,18 @@ func buildArch(t Triple3, parsed, short bool) (dependency.Arch, error) {
 
 var specC06Match = Register(&Spec[ArchPair]{
 	Prop: "C06", Name: "match",
-	Rule: "bounded-exhaustive: ALL 28 concrete architectures (atomic 'all' + 3 abi x 3 os x 3 cpu generic names) x ALL 65 patterns (atomic 'all' + each component 'any' or one of the three names) = 1820 pairs, each built three ways (struct literals, ParseArch of the 3-part name, ParseArch of the shortest Debian spelling) and evaluated in both call directions. Oracle: c.Is(p) == p.Is(c) == [p=all => c=all; c=all => p=all; else every component of p is 'any' or equal]; IsWildcard() is true exactly for the patterns with an 'any' component. Non-trivial: pattern has >= 1 'any' component or an atom 'all' is involved; distinct by (c,p,construction).",
+	Rule: "bounded-exhaustive: ALL 28 concrete architectures (atomic 'all' + 3 abi x 3 os x 3 cpu generic names) x ALL 65 patterns (atomic 'all' + each component 'any' or one of the three names) = 1820 pairs, each built seven ways (struct literals; the 3-part name and the shortest Debian spelling through ParseArch, through Arch.UnmarshalControl into a zero Arch, and through Arch.UnmarshalControl into a variable that read the other operand's name before) and evaluated in both call directions. Oracle: c.Is(p) == p.Is(c) == [p=all => c=all; c=all => p=all; else every component of p is 'any' or equal]; IsWildcard() is true exactly for the patterns with an 'any' component. Non-trivial: pattern has >= 1 'any' component or an atom 'all' is involved; distinct by (c,p,construction).",
 	Check: func(c ArchPair, r *Recorder) error {
 		nt := c.P.wildcard() || c.P == atomAll || c.C == atomAll
 		r.Case(jsonKey(c), nt)
 		if nt {
 			r.Sample(c)
 		}
-		ca, err := buildArch(c.C, c.Parsed, c.Short)
+		ca, err := buildArch(c.C, c.Parsed, c.Short, c.Via, c.P)
 		if err != nil {
 			return err
 		}
-		pa, err := buildArch(c.P, c.Parsed, c.Short)
+		pa, err := buildArch(c.P, c.Parsed, c.Short, c.Via, c.C)
 		if err != nil {
 			return err
 		}
@@ -159,8 +174,12 @@ func TestC06_MatchExh(t *testing.T) {
 	specC06Match.Enumerate(t, true, func(_ *Recorder, yield func(ArchPair) bool) {
 		for _, c := range allConcretes() {
 			for _, p := range allPatterns() {
-				for mode := 0; mode < 3; mode++ {
-					if !yield(ArchPair{C: c, P: p, Parsed: mode > 0, Short: mode == 2}) {
+				for mode := 0; mode < 7; mode++ {
+					ap := ArchPair{C: c, P: p, Parsed: mode > 0, Short: mode == 2 || mode == 4 || mode == 6}
+					if mode >= 3 {
+						ap.Via = (mode-3)/2 + 1
+					}
+					if !yield(ap) {
 						return
 					}
 				}
@@ -536,6 +555,18 @@ func genSatCase(t *rapid.T) SatCase {
 		c.OK = false
 		c.V = genVerParts(t, "v")
 		c.K = "unparsable-N"
+		if rapid.Bool().Draw(t, "oversized") {
+			// an epoch no Version can hold (C03: oversized epochs are rejected), of any size above
+			// the platform's uint - not only the 20 nines above
+			c.N = beyondUint(t, "nEpoch") + ":" + genSimpleVersion(t, "nRest")
+			if i := strings.Index(c.N[strings.Index(c.N, ":")+1:], ":"); i >= 0 {
+				c.N = c.N[:strings.Index(c.N, ":")+1] + "1.0-1"
+			}
+			c.K = "unparsable-N-oversized-epoch"
+			if rapid.Bool().Draw(t, "vAnyEpoch") {
+				c.V.E = rapid.Uint64Range(0, uint64(^uint(0))).Draw(t, "vEpoch")
+			}
+		}
 		return c
 	}
 	w := genWellFormed(t, "n")
@@ -563,7 +594,7 @@ func genSatCase(t *rapid.T) SatCase {
 
 var specC06Sat = Register(&Spec[SatCase]{
 	Prop: "C06", Name: "satisfied",
-	Rule: "(op, N, V): op from the five operators (7/8) or an unknown operator string; N a Policy-grammar version text (9/10, with surrounding blanks sometimes) or an unparsable string; V identical to N, a one-edit neighbour (C01 edit set), an equivalent respelling (leading zero / revision 0) or independent. Oracle: SatisfiedBy(V) == (reference_compare(V, N) rel 0) for << <= = >= >>, and false for an unknown operator or unparsable N. Non-trivial: V ~ N (boundary) or V a neighbour of N, or the rejecting classes; distinct by (op,N,V).",
+	Rule: "(op, N, V): op from the five operators (7/8) or an unknown operator string; N a Policy-grammar version text (9/10, with surrounding blanks sometimes) or an unparsable string (half of those: an epoch above the platform's uint - just above, a multiple of 2^32 / 2^64 plus a little, 11..26 digits - in front of a plain version, with V's epoch anywhere in the uint range); V identical to N, a one-edit neighbour (C01 edit set), an equivalent respelling (leading zero / revision 0) or independent. Oracle: SatisfiedBy(V) == (reference_compare(V, N) rel 0) for << <= = >= >>, and false for an unknown operator or unparsable N. Non-trivial: V ~ N (boundary) or V a neighbour of N, or the rejecting classes; distinct by (op,N,V).",
 	Check: func(c SatCase, r *Recorder) error {
 		known := false
 		for _, o := range operators {
